@@ -318,6 +318,42 @@ def run(pid="C04", mon="MonC04"):
     trace = ctx.run_scenarios(scs, pid.lower(), par=8)
     verdicts, _ = ctx.validate(trace, mon)
     ctx.judge(scs, trace, verdicts)
+    if pid == "C03":
+        # trace validation in the strict sense: the recorded metadata events of every downmeta scenario must be a behaviour of DownMeta.tla
+        # (logged events = BSend / Read with their arguments and results, internal steps silent)
+        by, order = ctx.load_trace(trace)
+        scmap = {s["id"]: s for s in scs}
+        nval = 0
+        for fl in D.META_FILTERS:
+            per = {sid: D.meta_trace_lines(by[sid], sid) for sid in order
+                   if sid.startswith("%s/downmeta-%s/" % (pid, fl)) and not any(e.get("ev") == "Inconclusive" for e in by[sid])}
+            if not per:
+                continue
+            nval += len(per)
+            ctx.last_validate = {"mon": "MonC03", "tracespec": "DownMeta", "filters": fl}
+            for sid in D.trace_validate_meta(ctx, fl, per):
+                path = ctx.write_replay(scmap.get(sid), by[sid], "TraceRejected")
+                ctx.violations.append((sid, "TraceRejected", path))
+        ctx.cov["clauses"]["tracesAcceptedByDownMetaSpec"] = nval - sum(1 for v in ctx.violations if v[1] == "TraceRejected")
+        # the binding is real: a trace with one corrupted field (two results of one source node swapped / a result nobody sent) is rejected
+        import json as _json
+        for fl in ("F_121", "F_11"):
+            for sid in order:
+                if not sid.startswith("%s/downmeta-%s/" % (pid, fl)):
+                    continue
+                ls = [_json.loads(x) for x in D.meta_trace_lines(by[sid], sid)]
+                rd = [k for k, x in enumerate(ls) if x["ev"] == "ReadMeta" and x["err"] == "" and x["src"] == "n1"]
+                if len(rd) < 2:
+                    continue
+                swapped = [dict(x) for x in ls]
+                swapped[rd[0]]["tag"], swapped[rd[1]]["tag"] = ls[rd[1]]["tag"], ls[rd[0]]["tag"]
+                invented = [dict(x) for x in ls]
+                invented[rd[-1]]["tag"] = 777
+                for name, mut in (("swapped", swapped), ("invented", invented)):
+                    if D.trace_validate_meta(ctx, fl, {sid: [_json.dumps(x) for x in mut]}) != [sid]:
+                        raise Inconclusive("TraceDownMeta accepted a corrupted trace (%s results in %s): the trace specification does not bind" % (name, sid))
+                ctx.notes.append("binding self-test: TraceDownMeta rejects %s with swapped / invented ReadMetadata results" % sid)
+                break
     ctx.finish(rule="scenarios = environment projections (chunks in full/alias form incl. bogus aliases and pre-registered data ids, reads, ack ticks, close) "
                     "of random complete behaviours of Downstream.tla plus fixed full-form-repeated scenarios, replayed on a real downstream; "
                     "non-trivial = verdict produced")
